@@ -794,10 +794,11 @@ func (c Concat) String() string {
 
 type Function struct {
 	*BaseExpr
-	Name string
-	Args []QueryExpression
-	From Token
-	For  Token
+	Name       string
+	NameQuoted bool
+	Args       []QueryExpression
+	From       Token
+	For        Token
 }
 
 func (e Function) String() string {
@@ -812,14 +813,15 @@ func (e Function) String() string {
 	} else {
 		args = listQueryExpressions(e.Args)
 	}
-	return upperFunctionName(e.Name) + "(" + args + ")"
+	return formatFunctionName(e.Name, e.NameQuoted) + "(" + args + ")"
 }
 
 type AggregateFunction struct {
 	*BaseExpr
-	Name     string
-	Distinct Token
-	Args     []QueryExpression
+	Name       string
+	NameQuoted bool
+	Distinct   Token
+	Args       []QueryExpression
 }
 
 func (e AggregateFunction) String() string {
@@ -829,7 +831,7 @@ func (e AggregateFunction) String() string {
 	}
 	s = append(s, listQueryExpressions(e.Args))
 
-	return upperFunctionName(e.Name) + "(" + joinWithSpace(s) + ")"
+	return formatFunctionName(e.Name, e.NameQuoted) + "(" + joinWithSpace(s) + ")"
 }
 
 func (e AggregateFunction) IsDistinct() bool {
@@ -1051,6 +1053,7 @@ func (e ListFunction) IsDistinct() bool {
 type AnalyticFunction struct {
 	*BaseExpr
 	Name           string
+	NameQuoted     bool
 	Distinct       Token
 	Args           []QueryExpression
 	IgnoreType     Token
@@ -1070,7 +1073,7 @@ func (e AnalyticFunction) String() string {
 	}
 
 	s := []string{
-		upperFunctionName(e.Name) + "(" + joinWithSpace(args) + ")",
+		formatFunctionName(e.Name, e.NameQuoted) + "(" + joinWithSpace(args) + ")",
 		keyword(OVER),
 		"(" + e.AnalyticClause.String() + ")",
 	}
@@ -1628,6 +1631,17 @@ func upperFunctionName(name string) string {
 		}
 	}
 	return string(b)
+}
+
+// formatFunctionName prints the name of a function as it has to be written to
+// be read again: a name that was written as a quoted identifier is quoted
+// again (it may hold characters that do not form one identifier, or spell a
+// keyword or a built-in aggregate, which the quotes keep a plain identifier).
+func formatFunctionName(name string, quoted bool) string {
+	if quoted {
+		return option.QuoteIdentifier(name)
+	}
+	return upperFunctionName(name)
 }
 
 func joinWithSpace(s []string) string {
